@@ -14,7 +14,7 @@ import (
 // frameWriteRule checks the framed writer of pkg under the given rule id.
 func frameWriteRule(c *Ctx, rule, pkg string) {
 	w := c.w
-	_, wr := framingFns(w, pkg)
+	_, wr := framingBodies(w, pkg)
 	if wr == nil || len(wr.Params) != 2 {
 		c.Unresolved(rule, "framed write helper of "+pkg)
 		return
